@@ -15,5 +15,5 @@ meta = {"property": a["property"], "id": x, "summary": a["summary"], "needs_to_m
             "check": "harness/seedrun.sh <worktree> %s quick (isolated copy of /verif, VERIF_REPO=<worktree>)" % a["property"]},
         "detection": res, "detected_by": how}
 json.dump(meta, open(d + "/meta.json", "w"), indent=1)
-subprocess.run(["git", "-C", "/repo", "worktree", "remove", "--force", wt])
+if os.environ.get("KEEP_WT") != "1": subprocess.run(["git", "-C", "/repo", "worktree", "remove", "--force", wt])
 print("recorded", x)
